@@ -223,7 +223,7 @@ def gen_world(rng, opts=None):
         p0 = rng.choice([8.0, 10.0, 25.5, 3.25, 48.0])
         kind = 'ETF' if sid == ETF else 'CS'
         board = 'KSH' if sid == KSH else 'MainBoard'
-        lot = 100
+        lot = 1 if sid == KSH else 100      # Instrument.round_lot is 1 on the STAR market whatever the bundle says
         ins = dict(kind=kind, lot=lot, listed=old, delisted=None, tplus=(0 if sid == ETF and rng.random() < 0.5 else 1),
                    board=board, mult=1.0, und=None)
         bdays = list(days)
